@@ -135,8 +135,32 @@ var HangGuard = 10 * time.Second
 // LeakGrace is how long free-mode runs wait for engine goroutines to terminate.
 var LeakGrace = 10 * time.Second
 
+// CountPaths makes RunEngine create a fresh engine with its own registry per case so
+// that the per-path query counter can be read (C08). Otherwise engines are cached per
+// option set: an engine instance is meant to be long-lived and shared.
+var CountPaths = false
+
+var engCache = map[Opts]queryEngine{}
+var refCache = map[Opts]*promql.Engine{}
+
+func optsKey(o Opts) Opts {
+	o.Procs = 0
+	o.Pool = ""
+	o.QLookbackMs = 0
+	return o
+}
+
 // BuildEngine creates the engine a case asks for (local or distributed).
 func BuildEngine(c *Case, reg prometheus.Registerer) (queryEngine, []*mstore.Store, error) {
+	if c.NDist == 0 && !CountPaths {
+		k := optsKey(c.O)
+		if e, ok := engCache[k]; ok {
+			return e, nil, nil
+		}
+		e := engine.New(EngineOpts(c.O, nil))
+		engCache[k] = e
+		return e, nil, nil
+	}
 	eo := EngineOpts(c.O, reg)
 	if c.NDist == 0 {
 		return engine.New(eo), nil, nil
@@ -176,8 +200,15 @@ func RunEngineCtx(ctx context.Context, c *Case, st *mstore.Store, withQuery func
 	SetPool(c.O.Pool)
 	st.Reset()
 	st.Faults = c.Faults
-	reg := prometheus.NewRegistry()
-	eng, _, err := BuildEngine(c, reg)
+	var reg *prometheus.Registry
+	if CountPaths {
+		reg = prometheus.NewRegistry()
+	}
+	var regi prometheus.Registerer
+	if reg != nil {
+		regi = reg
+	}
+	eng, _, err := BuildEngine(c, regi)
 	if err != nil {
 		out.Res.CreateErr = "harness: " + err.Error()
 		return out
@@ -193,7 +224,9 @@ func RunEngineCtx(ctx context.Context, c *Case, st *mstore.Store, withQuery func
 		}()
 		q, err = NewQuery(eng, st, c)
 	}()
-	out.Counter = readCounter(reg)
+	if reg != nil {
+		out.Counter = readCounter(reg)
+	}
 	switch {
 	case out.Counter["true"] > 0:
 		out.Path = "fallback"
@@ -318,7 +351,11 @@ func labelOf(m *dto.Metric, name string) string {
 func RunRef(c *Case, st *mstore.Store) *Result {
 	st.Reset()
 	st.Faults = nil
-	eng := promql.NewEngine(promOpts(c.O))
+	eng := refCache[optsKey(c.O)]
+	if eng == nil {
+		eng = promql.NewEngine(promOpts(c.O))
+		refCache[optsKey(c.O)] = eng
+	}
 	q, err := NewQuery(eng, st, c)
 	if err != nil {
 		return &Result{Type: "none", CreateErr: err.Error()}
@@ -620,6 +657,8 @@ func Features(c *Case) []string {
 				}
 				if x.VectorMatching.Card == parser.CardManyToOne || x.VectorMatching.Card == parser.CardOneToMany {
 					f["binop:group"] = true
+				} else if !ls && !rs {
+					f["binop:one-to-one"] = true
 				}
 				if x.VectorMatching.On {
 					f["binop:on"] = true
